@@ -38,7 +38,7 @@ def run(tier, seed):
     res = Result("C02", tier, seed)
     rng = random.Random(seed)
     thm = check_theorems("C02")
-    nruns = 30 if tier == "quick" else 150
+    nruns = 30 if tier == "quick" else 700
     cases, meta, bad = [], [], []
     for it in range(nruns):
         mname, x0, p0 = MODELS[it % len(MODELS)]
